@@ -184,6 +184,22 @@ def r06a(ck, prog):
         if not hit:
             ck.violation("R06a", "R06a/read_msf/%s" % tok.strip(), site(prog, call),
                          "read_msf needs the token %r, which %s never writes" % (tok, wname), prog.config)
+    # what read_clu searches for (e.g. to find the header line) must be something write_msa_clu writes
+    RC = prog.fn("read_clu")
+    cname, clits = W["FORMAT_CLU"]
+    for G in [RC] + [prog.functions[c.callee] for c in RC.body.calls() if c.callee in prog.functions and prog.functions[c.callee].static and prog.functions[c.callee].file == RC.file]:
+        for call in G.body.calls("strstr", "strncmp", "strcmp"):
+            lit = next((a.strip(casts=True) for a in call.args if a.strip(casts=True).k == "StringLiteral"), None)
+            if lit is None:
+                continue
+            n += 1
+            tok = lit.d["s"]
+            hit = any(tok in l for l in clits)
+            ck.inst("R06a", site(prog, call, "clu:%s" % tok), "read_clu looks for %r; %s by %s" % (tok, "emitted" if hit else "NOT emitted", cname), prog.config)
+            if not hit:
+                ck.violation("R06a", "R06a/read_clu/%s" % tok.strip(), site(prog, call),
+                             "read_clu looks for the token %r, which %s never writes: kalign's own Clustal output (and every file with "
+                             "another program's header) is parsed differently from what the reader expects" % (tok, cname), prog.config)
     # the literal skip after "Name:" must equal the token's length
     for a in R.body.find("CompoundAssignOperator"):
         if a.d["op"] == "+=" and a.kids[1].cv is not None:
